@@ -238,8 +238,6 @@ def run(db, chk) -> None:
     f = H.inline_helpers(tm, tm.func("Trace.parse_multiple_ranks"))
     where = tm.loc(f)
     check_rank_association(db, chk, "C11.R3-ordered-collection")
-    seq = [n for n in ast.walk(f) if isinstance(n, ast.For) and H.name_id(n.iter) == "ranks"]
-    chk.ob("C11.R3-ordered-collection", "the sequential branch and the final re-encoding iterate the same rank list", len(seq) >= 2, where, found=len(seq), accepted=">= 2 loops over ranks")
     pt = tm.func("Trace.parse_traces")
     pcall = [c for c in H.calls(pt) if isinstance(c.func, ast.Attribute) and c.func.attr == "parse_multiple_ranks"]
     rv = H.name_id(pcall[0].args[0]) if len(pcall) == 1 and pcall[0].args else None
